@@ -114,7 +114,10 @@ UpdDef == [ annA      |-> U(TRUE, {N("a", 0)}, {}, {}),
             noOrigin      |-> U(FALSE, {N("a", 0)}, {}, {3}),
             noASPath      |-> U(FALSE, {N("a", 0)}, {}, {3}),
             noNextHop     |-> U(FALSE, {N("a", 0)}, {}, {3}),
-            noAttrs       |-> U(FALSE, {N("a", 0)}, {}, {3}),                  \* NLRI but no path attributes at all
+            noAttrs       |-> U(FALSE, {N("a", 0)}, {}, {3}),
+            noNextHopMP   |-> U(FALSE, {N("a", 0), N("c6", 0)}, {}, {3}),      \* IPv4 NLRI without NEXT_HOP next to an MP_REACH_NLRI
+            mpNoOrigin    |-> U(FALSE, {N("c6", 0)}, {}, {3}),                 \* MP_REACH_NLRI without ORIGIN
+            mpNoASPath    |-> U(FALSE, {N("c6", 0)}, {}, {3}),                  \* NLRI but no path attributes at all
             nlriTrunc     |-> U(FALSE, {N("a", 0)}, {}, {10, 1}) ]
 
 -----------------------------------------------------------------------------
